@@ -84,7 +84,7 @@ pub fn check_encode(drv: &mut Driver, ev: &mut Ev, enc: &'static Encoding, text:
     let s: &str = unsafe { std::str::from_utf8_unchecked(sb) };
     ev.api_calls += 1; ev.count("oneshot-diff.encode-calls");
     if text.iter().any(|c| *c >= 0x80 || *c == 0x1B) { if enumerated { ev.nontrivial_enum(); } else { ev.nontrivial_hash(H::new().s(enc.name()).u32s(text).u(2).get()); } }
-    let key = |k: &str| format!("{}:encode:{}", enc.output_encoding().name(), k);
+    let key = |k: &str| format!("{}:encode:{}", crate::c01::ofam(enc), k);
     let desc = || format!("enc={} api=encode text=[{}] ({} bytes)", enc.name(), hex32(&text[..text.len().min(64)]), st.len());
     let r = catch_unwind(AssertUnwindSafe(|| { let (c, e, h) = enc.encode(s); (c.to_vec(), e, h, matches!(c, Cow::Borrowed(_)), c.len() == 0 || (c.as_ptr() == s.as_ptr() && c.len() == s.len())) }));
     let (bytes, used, had, borrowed, alias) = match r { Ok(x) => x, Err(e) => { ev.violation("oneshot-diff", &key("panic"), format!("one-shot call panicked: {} | {}", panic_message(&e), desc())); return; } };
